@@ -239,7 +239,7 @@ def nice_constraints(sc):
 def no_tie_constraints(world):
     """witness models avoid exact half-unit ties of the pro-rata quotient, where the real 28-digit arithmetic may land on either neighbour"""
     cs = []
-    for n, d, r in world.ties:
+    for n, d, r, *_ in world.ties:
         h = 2 * n + d
         cs += [h != 2 * d * r, h != 2 * d * (r + 1)]
     return cs
